@@ -356,12 +356,17 @@ class Function:
                 for n in walk(el["e"]):
                     if n.get("mac") and n.get("k") in ("ref", "cond"):
                         c = self.resolve(n)
-                        if isinstance(c, dict) and c.get("k") == "cond":
-                            a = self.resolve(strip(c["a"]))
-                            if isinstance(a, dict) and a.get("k") == "call" and "fn" not in a:
-                                a["fn"] = n["mac"]
-                                a["macro"] = True
-                                c["mac"] = n["mac"]
+                        chain = []
+                        g = 0
+                        while isinstance(c, dict) and c.get("k") == "cond" and g < 4:
+                            g += 1
+                            chain.append(c)
+                            c = self.resolve(strip(c["a"]))
+                        if chain and isinstance(c, dict) and c.get("k") == "call" and ("fn" not in c or c.get("macro")):
+                            c["fn"] = n["mac"]
+                            c["macro"] = True
+                            for x in chain:
+                                x["mac"] = n["mac"]
 
     def as_call(self, e):
         """The call node that produces the value of e (through refs and list-macro conditionals)."""
@@ -370,10 +375,12 @@ class Function:
             return None
         if e.get("k") == "call":
             return e
-        if e.get("k") == "cond" and e.get("mac"):
-            a = self.resolve(strip(e["a"]))
-            if isinstance(a, dict) and a.get("k") == "call" and a.get("macro"):
-                return a
+        g = 0
+        while isinstance(e, dict) and e.get("k") == "cond" and e.get("mac") and g < 4:
+            g += 1
+            e = self.resolve(strip(e["a"]))
+            if isinstance(e, dict) and e.get("k") == "call" and e.get("macro"):
+                return e
         return None
 
     # ----- element access
